@@ -200,6 +200,28 @@ class DocModel:
 # matching reader output against a model tree
 # ----------------------------------------------------------------------------------------------
 
+WELL_KNOWN_NS = {"xml": "http://www.w3.org/XML/1998/namespace", "xlink": "http://www.w3.org/1999/xlink",
+                 "ev": "http://www.w3.org/2001/xml-events"}
+
+
+def clark(key, nsmap=None):
+    """'pfx:local' -> '{uri}local' (ElementTree's notation), using the document's declarations where the
+    reader hands them out and the prefixes svgwrite declares on every root otherwise."""
+    if key.startswith("{") or ":" not in key or key.startswith("xmlns"):
+        return key
+    pfx, local = key.split(":", 1)
+    uri = (nsmap or {}).get(pfx) or WELL_KNOWN_NS.get(pfx)
+    return "{%s}%s" % (uri, local) if uri else key
+
+
+def clark_dict(d, nsmap=None):
+    return {clark(k, nsmap): v for k, v in d.items()}
+
+
+def nsmap_of(svg_attrs):
+    return {k[6:]: v for k, v in (svg_attrs or {}).items() if k.startswith("xmlns:")}
+
+
 def style_keys(attrs):
     """property names declared in a `style` attribute"""
     st = (attrs or {}).get("style")
@@ -223,7 +245,15 @@ def sax_effective(attrs):
 def match(result, tree, reader, check_attrs=True, attr_filter=None):
     """result = (paths, attr dicts, svg attrs or None).  Returns None when it matches the tree, else
     (family, detail)."""
-    paths, attrs, svg_attrs = result
+    paths, attrs, svg_attrs = result[:3]
+    # attribute names with a namespace prefix: readers return either the qualified name (minidom) or
+    # ElementTree's {uri}local form - the same attribute; compare in the latter
+    nsm = dict(result[3]) if len(result) > 3 and result[3] else {}
+    nsm.update(nsmap_of(svg_attrs))
+    if attrs is not None:
+        attrs = [clark_dict(a, nsm) if hasattr(a, "items") else a for a in attrs]
+    if svg_attrs is not None:
+        svg_attrs = clark_dict(svg_attrs, nsm)
     exp = tree.flat()
     if len(paths) < len(exp):
         return ("missing", {"expected": len(exp), "got": len(paths)})
@@ -312,11 +342,12 @@ def match(result, tree, reader, check_attrs=True, attr_filter=None):
                 continue
             a = attrs[pairing[i]]
             styled = style_keys(e.attrs) if reader == "sax" else ()
-            for k, v in e.attrs.items():
-                if attr_filter is not None and k not in attr_filter:
+            for k0, v in e.attrs.items():
+                if attr_filter is not None and k0 not in attr_filter:
                     continue
-                if k in styled:
+                if k0 in styled:
                     continue    # SaxDocument gives a style declaration precedence over the attribute (CSS rule)
+                k = clark(k0)
                 if k not in a:
                     return ("attr_lost", {"pid": e.pid, "key": k, "value": v})
                 if a[k] != v:
@@ -324,7 +355,8 @@ def match(result, tree, reader, check_attrs=True, attr_filter=None):
                     fam = "attr_mispaired" if a[k] in others else "attr_changed"
                     return (fam, {"pid": e.pid, "key": k, "expected": v, "got": a[k]})
     if check_attrs and svg_attrs is not None:
-        for k, v in tree.svg_attrs.items():
+        for k0, v in tree.svg_attrs.items():
+            k = clark(k0)
             if k not in svg_attrs:
                 return ("svgattr_lost", {"key": k, "value": v})
             if svg_attrs[k] != v:
@@ -453,7 +485,19 @@ class World:
 
     # ---- readers (fault-free unless run through self.run) ----------------------------------------------
     def read_with(self, reader, name):
-        """Returns ('ok', (paths, attrs, svg_attrs)) or ('raised', type name)."""
+        """Returns ('ok', (paths, attrs, svg_attrs, nsmap)) or ('raised', type name).  nsmap: the
+        namespace declarations found in the file (harness-side look at SimFS, not an I/O event), used
+        only to put prefixed attribute names into one notation."""
+        oc = self._read_with(reader, name)
+        if oc[0] != "ok":
+            return oc
+        data = self.fs.content(self.fs.resolve(str(name))) or b""
+        import re
+        nsmap = {m.group(1).decode(): m.group(2).decode("utf-8", "replace")
+                 for m in re.finditer(rb'xmlns:([A-Za-z_][\w.-]*)="([^"]*)"', data)}
+        return ("ok", tuple(oc[1]) + (nsmap,))
+
+    def _read_with(self, reader, name):
         fs = self.fs
         try:
             if reader == "svg2paths":
@@ -545,7 +589,7 @@ class World:
                          tree.writer, tree.shape(), rd, fault)
 
     # ---- common post-processing of a writer operation --------------------------------------------------
-    def after_write(self, idx, op, status, fired, pre, tree, target, writer):
+    def after_write(self, idx, op, status, fired, pre, tree, target, writer, shown=None):
         """pre: gens before; target: resolved absolute name when known in advance (else None)."""
         fs = self.fs
         post = fs.gens()
@@ -556,6 +600,10 @@ class World:
             if name is None:
                 if len(changed) == 1:
                     name = changed[0]
+                elif not changed and shown is not None and shown in fs.files:
+                    # nothing was (re)written, but the writer showed a file: that file must hold the data
+                    name = shown
+                    self.probe("display_reused_an_existing_file")
                 elif not changed:
                     self.violate(idx, "ack_without_data", {"note": "writer returned normally, no file changed"},
                                  writer, tree.shape(), "-", fault)
@@ -691,7 +739,8 @@ class World:
         if op.get("pathlike") and fname is not None:
             self.probe("pathlib_file_name")
         status, val, fired = self.run(op, lambda: fn(args, filename=fn_arg(op, fname), **kw))
-        name = self.after_write(idx, op, status, fired, pre, tree, target, writer)
+        shown = fs.resolve(fs.browser_calls[-1]) if len(fs.browser_calls) > nb else None
+        name = self.after_write(idx, op, status, fired, pre, tree, target, writer, shown=shown)
         if will_stamp and status == "ok" and name is not None and pre.get(name) is not None:
             self.probe("two_timestamped_writes_collide_on_one_name")
         entry["wrote"] = name
@@ -959,8 +1008,10 @@ class World:
         tree = dm.tree.clone()
         tree.writer = "document:" + dm.origin.split(":")[0]
         pre = fs.gens()
+        nb = len(fs.browser_calls)
         status, val, fired = self.run(op, lambda: dm.obj.display(fname))
-        self.after_write(idx, op, status, fired, pre, tree, target, tree.writer)
+        shown = fs.resolve(fs.browser_calls[-1]) if len(fs.browser_calls) > nb else None
+        self.after_write(idx, op, status, fired, pre, tree, target, tree.writer, shown=shown)
         return status
 
     # ---- SaxDocument as a writer ------------------------------------------------------------------------------
@@ -1113,6 +1164,7 @@ class Gen:
         self.t0 = 1.7e9 + c.randint(0, 10 ** 6) + c.choice([0.0, 0.5, 0.123456])
         self.short_step = c.choice([1, 3, 7, 100])
         self.next_pid = 1
+        self.last_wsvg = None
         self.recent = []
         self.next_doc = 0
         self.nfaults = 0
@@ -1195,10 +1247,14 @@ class Gen:
         self.recent = (self.recent + [segs])[-6:]
         return {"pid": pid, "segs": segs}
 
-    def attrs(self, r, pid):
+    def attrs(self, r, pid, prefixed=False):
         if self.attr_mode == "none" and r.random() < 0.8:
             return None
         a = {"id": "p%d" % pid}
+        if r.random() < 0.08:
+            a["id"] = r.choice(["g1", "g2", "g3", "g10", "n1", "n2"])      # an id that is also a group name
+        if prefixed and r.random() < 0.3:
+            a[r.choice(["xlink:href", "xml:space", "xlink:title"])] = r.choice(["#p0", "preserve", "t 1"])
         for k in r.sample(KEYS, r.randint(0, 4)):
             if k == "style":
                 a[k] = r.choice(STYLE_VALS)
@@ -1224,12 +1280,15 @@ class Gen:
             a["data-x"] = r.choice(VAL_NASTY if self.attr_mode == "nasty" else VAL_SIMPLE)
         if r.random() < 0.3:
             a["id"] = "root%d" % r.randint(1, 9)
+        if r.random() < 0.15:
+            a["xml:space"] = "preserve"
         return a or None
 
     def fault(self, r, opname, world):
         if not self.faulting or self.nfaults >= self.maxfaults or r.random() > 0.55:
             return None
         kinds = ["crash", "crash", "crash", "interrupt", "interrupt", "eio_write", "eio_write", "enospc_write",
+                 "eagain_write", "eintr_write",
                  "short_write", "short_write", "eacces_open", "enoent_open", "emfile_open", "eio_close",
                  "eexist_mkdir"]
         if opname in ("disvg", "doc_display"):
@@ -1240,7 +1299,7 @@ class Gen:
         f = {"kind": k}
         if k in ("crash", "interrupt"):
             f["n"] = r.choice([1, 2, 3, 4, 5, 6, 8, 10, 12, 15, 20, 30, 60])
-        elif k in ("eio_write", "enospc_write", "short_write"):
+        elif k in ("eio_write", "enospc_write", "short_write", "eagain_write", "eintr_write"):
             f["n"] = r.choice([1, 1, 2, 3, 5, 8, 20, 50])
             f["k"] = r.choice([0, 1, 7, self.bufsize // 2, self.bufsize])
         elif k in ("short_read", "eio_read"):
@@ -1262,7 +1321,9 @@ class Gen:
             k = r.choices(names, weights=weights)[0]
             op = self.make(k, a, w)
             if op is not None:
-                op["dt"] = a.choice(self.dts)
+                op["dt"] = op.pop("__dt") if "__dt" in op else a.choice(self.dts)
+                if k == "wsvg" and not op.get("timestamp"):
+                    self.last_wsvg = op
                 if self.pathlike and k in ("wsvg", "disvg", "doc_save", "doc_load", "sax_resave", "read") \
                         and op.get("file", op.get("dst")) is not None and a.random() < 0.5:
                     op["pathlike"] = True
@@ -1282,11 +1343,20 @@ class Gen:
         return out
 
     def make(self, k, a, w):
+        if k == "wsvg" and self.last_wsvg is not None and a.random() < 0.12:
+            # the same file again, within the same clock tick, with content of exactly the same size:
+            # x and y of the first point of every path swapped (what a coarse mtime cannot tell apart)
+            op = copy.deepcopy(self.last_wsvg)
+            for p in op["paths"]:
+                p["segs"][0][1] = [p["segs"][0][1][1], p["segs"][0][1][0]]
+            op.pop("faults", None)
+            op["__dt"] = 0.0
+            return op
         if k in ("wsvg", "disvg"):
             n = a.choice([1, 1, 2, 3, 5])
             paths = [self.pathspec(a) for _ in range(n)]
             op = {"op": k, "paths": paths}
-            at = [self.attrs(a, p["pid"]) for p in paths]
+            at = [self.attrs(a, p["pid"], prefixed=True) for p in paths]
             if all(x is not None for x in at):
                 op["attrs"] = at
             else:
@@ -1305,6 +1375,12 @@ class Gen:
             #  pinned tree disvg(paths, dimensions=...) without stroke_widths raises TypeError)
             if a.random() < 0.15:
                 op["mindim"] = a.choice([None, 100])
+            elif op["attrs"] is not None and a.random() < 0.25:
+                # with per-path attributes supplied these two work on the pinned tree too
+                if a.random() < 0.5:
+                    op["viewbox"] = a.choice(["0 0 100 100", [0, 0, 50, 50], "-1 -2 30 40"])
+                else:
+                    op["dimensions"] = a.choice([[100, 100], ["10cm", "5cm"]])
             # (d-strings are not handed to wsvg/disvg: without explicit dimensions the bounding-box step
             #  rejects them by design; Document.add_path documents d-string input and gets it)
             op["as"] = a.choice(["path", "path", "path", "segment"])
@@ -1556,7 +1632,7 @@ EXPECTED_PROBES = [
 # raw write of it
 # ----------------------------------------------------------------------------------------------
 
-SWEEP_ONE_IN = {"quick": 12, "thorough": 5}
+SWEEP_ONE_IN = {"quick": 12, "thorough": 25}
 
 
 def derived(run_seed, tier, hist):
@@ -1582,6 +1658,7 @@ def derived(run_seed, tier, hist):
     for n in range(1, min(wr, 40) + 1):
         plans.append([{"kind": "eio_write", "n": n, "k": (3 if n % 2 else 0)}])
         plans.append([{"kind": "short_write", "n": n, "k": 1}])
+        plans.append([{"kind": "eagain_write", "n": n, "k": (5 if n % 2 else 0)}])
     for kind in ("eacces_open", "emfile_open", "eio_close"):
         plans.append([{"kind": kind, "n": 1}])
         plans.append([{"kind": kind, "n": 2}])
